@@ -258,6 +258,44 @@ func (r *runner) runBlock(label string, typ uint, root *vh.Item, toCoq bool) {
 	}
 }
 
+// boundaryCorpus: containers whose child count crosses the header-width boundaries (23/24,
+// 255/256) in minimal / widened (0x98 nn with nn < 24, 0x99 ..) / 8-byte / indefinite form on
+// the tx-bodies, witness-sets, auxiliary, outputs and witness-component containers.  All of it
+// runs in Go for every seed; a fixed regression set and a seeded sample also go to Coq.
+func (r *runner) boundaryCorpus(fx []blk.Fixture) {
+	saved, used := r.coqBudget, r.coqBytes
+	r.coqBudget = r.coqBytes + r.c.Pick(45_000, 400_000)
+	always := map[string]bool{
+		"shelley:boundary:txs:24:indef": true, "mary:boundary:txs:23:wide1": true, "allegra:boundary:txs:24:wide8": true,
+	}
+	for _, f := range fx {
+		if f.Type == 1 {
+			for _, n := range blk.BoundaryCounts {
+				for mode := 0; mode < blk.NForms; mode++ {
+					b, payload, outs := blk.ByronWithTxs(f.Root, n, []int{1, 24, 30}[(n+mode)%3])
+					blk.SetForm(payload, mode)
+					for _, o := range outs {
+						blk.SetForm(o, (mode+n)%blk.NForms)
+					}
+					r.runBlock(fmt.Sprintf("byron:boundary:txs:%d:%s", n, blk.FormNames[mode]), f.Type, b, false)
+				}
+			}
+			continue
+		}
+		for level := 0; level < 3; level++ {
+			for _, n := range blk.BoundaryCounts {
+				for mode := 0; mode < blk.NForms; mode++ {
+					for _, bb := range blk.BoundaryBlocks(f, level, n, mode) {
+						toCoq := bb.Small && (always[bb.Label] || (level == 0 && r.c.Rng.Intn(r.c.Pick(40, 4)) == 0))
+						r.runBlock(bb.Label, bb.Type, bb.Root, toCoq)
+					}
+				}
+			}
+		}
+	}
+	r.coqBudget = saved + (r.coqBytes - used)
+}
+
 var reformOpts = []vh.ReformOpts{
 	{Containers: true, Indef: true, Prob: 30},
 	{Containers: true, Indef: true, Ints: true, Strings: true, Tags: true, Prob: 15},
@@ -307,6 +345,7 @@ func run(c *vh.Ctx) error {
 		w.F = vh.Findef
 		r.runBlock(f.Name+":outer-9f", f.Type, w, f.Type == 3)
 	}
+	r.boundaryCorpus(fx)
 	for round := 0; round < c.Pick(3, 25); round++ {
 		for _, f := range fx {
 			o := reformOpts[c.Rng.Intn(len(reformOpts))]
